@@ -130,18 +130,18 @@ Definition enabled_set : list N :=
   match i_req i with
   | [] => filter (fun k => negb (kdis k)) all_keys
   | _ => if i_nodeps i then filter requested all_keys
-         else filter (fun k => mem k (closure req_keys) && negb (kfg k)) all_keys
+         else let cl := closure req_keys in filter (fun k => mem k cl && negb (kfg k)) all_keys
   end.
-Definition to_run : list N := filter (fun k => negb (kfg k)) enabled_set.
-Definition spec_status (k : N) : status :=
-  if negb (mem k enabled_set) then StDisabled else if kfg k then StForeground else StPending.
+(* [en] = enabled_set, [tr] = the processes to run, computed once by the caller *)
+Definition spec_status (en : list N) (k : N) : status :=
+  if negb (mem k en) then StDisabled else if kfg k then StForeground else StPending.
 
 Fixpoint index_of (k : N) (l : list N) : nat :=
   match l with [] => 0 | x :: r => if N.eqb x k then 0 else S (index_of k r) end.
 
-Definition order_valid (o : list N) : bool :=
-  nodupb o && same_set o to_run &&
-  forallb (fun k => forallb (fun k' => negb (mem k' to_run) || Nat.ltb (index_of k' o) (index_of k o)) (ksucc k)) o.
+Definition order_valid (tr o : list N) : bool :=
+  nodupb o && same_set o tr &&
+  forallb (fun k => forallb (fun k' => negb (mem k' tr) || Nat.ltb (index_of k' o) (index_of k o)) (ksucc k)) o.
 
 Definition load_clause (c : ocase) : bool := Bool.eqb (verdict_eqb (o_load c) VOk) spec_load_ok.
 Definition kind_clause (c : ocase) : bool :=
@@ -154,16 +154,19 @@ Definition kind_clause (c : ocase) : bool :=
   end.
 
 Definition plan_clause (c : ocase) : bool :=
-  nodupb (o_keys c) && same_set (o_keys c) all_keys &&
+  let ak := all_keys in
+  nodupb (o_keys c) && same_set (o_keys c) ak &&
   if o_runner_ok c then
+    let en := enabled_set in
+    let tr := filter (fun k => negb (kfg k)) en in
     (* listed as disabled / started exactly as the text says *)
-    Nat.eqb (length (o_status c)) (length all_keys) &&
-    forallb (fun k => option_eqb status_eqb (lookup_status k (o_status c)) (Some (spec_status k))) all_keys &&
+    Nat.eqb (length (o_status c)) (length ak) &&
+    forallb (fun k => option_eqb status_eqb (lookup_status k (o_status c)) (Some (spec_status en k))) ak &&
     (if o_order_err c
-     then broken_dep all_keys && match o_launched c with [] => true | _ => false end
-     else order_valid (o_order c) && nodupb (o_launched c) && same_set (o_launched c) to_run) &&
+     then broken_dep ak && match o_launched c with [] => true | _ => false end
+     else order_valid tr (o_order c) && nodupb (o_launched c) && same_set (o_launched c) tr) &&
     (* never started: disabled, foreground, outside the namespaces *)
-    forallb (fun k => mem k all_keys && negb (kfg k) && mem k enabled_set) (o_launched c)
+    forallb (fun k => mem k ak && negb (kfg k) && mem k en) (o_launched c)
   else
     (* refusing to build the runner needs a reason: a requested name that stands for nothing, or a
        dependency inside the requested closure that stands for no admitted process *)
